@@ -1099,49 +1099,418 @@ def _second_pass_deps(ctx, m, rd, fn, y, ystmt, shape, pos_deps, pos_module, tag
 
 
 # -- R19.4 ---------------------------------------------------------------------------
+#
+# The escape function is decided semantically.  Ninja's path lexer undoes
+# exactly `$c` -> c for the escapable characters, so the only function whose
+# result reads back as the original path (and contains no variable reference)
+# is the character-wise map  c -> '$'+c (c escapable), c -> c (otherwise).
+# `re.sub` scans left to right; for a pattern without anchors, look-around or
+# back-references, of width 1..W, what happens at a position depends only on
+# the next W characters.  So `sub` computes the canonical map on every string
+# iff for every window w of length <= W over (escapable characters + one
+# representative of every class of characters the pattern cannot tell apart):
+#   no match at the start of w  =>  w[0] is not escapable           (covers)
+#   a match m of text x without escapable characters => repl(m) == x (only)
+#   a match m of text x with escapable characters => repl(m) == canonical(x)
+# The pattern is parsed with re._parser (fragment, width, character classes);
+# windows are matched with the reference engine on the constant pattern; a
+# function replacement is interpreted over its AST (never executed).
 
-def _single_char_class(pattern):
-  """(set of characters a one-character pattern matches, group index)."""
+_UNIVERSE = [chr(i) for i in range(0x300)]
+_MAX_WIDTH = 4
+_CONTEXT_OPS = {"AT", "ASSERT", "ASSERT_NOT", "GROUPREF", "GROUPREF_EXISTS",
+                "GROUPREF_IGNORE", "GROUPREF_LOC_IGNORE", "GROUPREF_UNI_IGNORE"}
+_CATEGORY_RE = {
+    "CATEGORY_DIGIT": r"\d", "CATEGORY_NOT_DIGIT": r"\D",
+    "CATEGORY_SPACE": r"\s", "CATEGORY_NOT_SPACE": r"\S",
+    "CATEGORY_WORD": r"\w", "CATEGORY_NOT_WORD": r"\W",
+}
+
+
+def _canonical_escape(s):
+  return "".join("$" + c if c in NINJA_ESCAPABLE else c for c in s)
+
+
+def _class_pred(op, av):
+  """Membership predicate of one character-level regex item."""
+  name = str(op)
+  if name == "LITERAL":
+    return lambda u: ord(u) == av
+  if name == "NOT_LITERAL":
+    return lambda u: ord(u) != av
+  if name == "ANY":
+    return lambda u: u != "\n"
+  if name == "IN":
+    parts, negate = [], False
+    for iop, iav in av:
+      iname = str(iop)
+      if iname == "NEGATE":
+        negate = True
+      elif iname == "LITERAL":
+        parts.append(lambda u, c=iav: ord(u) == c)
+      elif iname == "RANGE":
+        parts.append(lambda u, lo=iav[0], hi=iav[1]: lo <= ord(u) <= hi)
+      elif iname == "CATEGORY":
+        cat = _CATEGORY_RE.get(str(iav))
+        if cat is None:
+          raise AnalysisError(f"escape_ninja_path: regex category {iav}")
+        cre = re.compile(cat)
+        parts.append(lambda u, cre=cre: cre.fullmatch(u) is not None)
+      else:
+        raise AnalysisError(f"escape_ninja_path: character-class item {iname}")
+    return lambda u: any(q(u) for q in parts) != negate
+  return None
+
+
+def _regex_items(parsed):
+  """(character-level predicates, ops outside the context-free fragment)."""
+  preds, foreign = [], set()
+
+  def walk(seq):
+    for op, av in seq:
+      name = str(op)
+      pred = _class_pred(op, av)
+      if pred is not None:
+        preds.append(pred)
+      elif name == "SUBPATTERN":
+        _, add, dele, sub = av
+        if add or dele:
+          foreign.add("inline flags")
+        walk(sub)
+      elif name == "BRANCH":
+        for alt in av[1]:
+          walk(alt)
+      elif name in ("MAX_REPEAT", "MIN_REPEAT", "POSSESSIVE_REPEAT"):
+        walk(av[2])
+      elif name == "ATOMIC_GROUP":
+        walk(av)
+      elif name in _CONTEXT_OPS:
+        foreign.add(name)
+        if name in ("ASSERT", "ASSERT_NOT"):
+          walk(av[1])
+      else:
+        raise AnalysisError(f"escape_ninja_path: regex item {name} not understood")
+  walk(parsed)
+  return preds, foreign
+
+
+class _Raises:
+  def __init__(self, e):
+    self.e = e
+
+  def __repr__(self):
+    return f"<raises {type(self.e).__name__}: {self.e}>"
+
+
+class _Interp:
+  """Evaluates a replacement function's AST on a reference match object."""
+
+  def __init__(self, node):
+    self.node = node
+    a = node.args
+    ps = [x.arg for x in a.posonlyargs + a.args]
+    if len(ps) != 1 or a.vararg or a.kwarg or a.kwonlyargs:
+      raise AnalysisError("escape_ninja_path: replacement function signature")
+    self.param = ps[0]
+
+  def __call__(self, m):
+    env = {self.param: m}
+    try:
+      if isinstance(self.node, ast.Lambda):
+        return self.ev(self.node.body, env)
+      self.block(self.node.body, env)
+      return None            # fell off the end of the def
+    except AnalysisError:
+      raise
+    except _Return as r:
+      return r.value
+    except Exception as e:  # what the replacement itself would raise at run time
+      return _Raises(e)
+
+  def block(self, stmts, env):
+    for s in stmts:
+      if isinstance(s, ast.Expr) and isinstance(s.value, ast.Constant):
+        continue
+      if isinstance(s, ast.Return):
+        raise _Return(self.ev(s.value, env) if s.value is not None else None)
+      if isinstance(s, ast.If):
+        self.block(s.body if self.ev(s.test, env) else s.orelse, env)
+        continue
+      if isinstance(s, ast.Assign) and len(s.targets) == 1 and \
+          isinstance(s.targets[0], ast.Name):
+        env[s.targets[0].id] = self.ev(s.value, env)
+        continue
+      if isinstance(s, ast.Pass):
+        continue
+      raise AnalysisError(
+          f"escape_ninja_path: replacement statement `{src(s)[:50]}` not interpreted")
+
+  def ev(self, e, env):
+    if isinstance(e, ast.Constant):
+      return e.value
+    if isinstance(e, ast.Name):
+      if e.id in env:
+        return env[e.id]
+      raise AnalysisError(f"escape_ninja_path: replacement reads `{e.id}`")
+    if isinstance(e, ast.BoolOp):
+      v = None
+      for x in e.values:
+        v = self.ev(x, env)
+        if isinstance(e.op, ast.And) and not v:
+          return v
+        if isinstance(e.op, ast.Or) and v:
+          return v
+      return v
+    if isinstance(e, ast.UnaryOp) and isinstance(e.op, ast.Not):
+      return not self.ev(e.operand, env)
+    if isinstance(e, ast.IfExp):
+      return self.ev(e.body if self.ev(e.test, env) else e.orelse, env)
+    if isinstance(e, ast.BinOp) and isinstance(e.op, (ast.Add, ast.Mod, ast.Mult)):
+      l, r = self.ev(e.left, env), self.ev(e.right, env)
+      if isinstance(e.op, ast.Add):
+        return l + r
+      if isinstance(e.op, ast.Mult):
+        return l * r
+      return l % r
+    if isinstance(e, ast.Tuple):
+      return tuple(self.ev(x, env) for x in e.elts)
+    if isinstance(e, ast.JoinedStr):
+      out = ""
+      for v in e.values:
+        if isinstance(v, ast.Constant):
+          out += v.value
+        elif isinstance(v, ast.FormattedValue) and v.format_spec is None \
+            and v.conversion == -1:
+          out += format(self.ev(v.value, env))
+        else:
+          raise AnalysisError("escape_ninja_path: f-string with a format spec")
+      return out
+    if isinstance(e, ast.Compare) and len(e.ops) == 1:
+      l, r = self.ev(e.left, env), self.ev(e.comparators[0], env)
+      op = e.ops[0]
+      table = {ast.Is: lambda: l is r, ast.IsNot: lambda: l is not r,
+               ast.Eq: lambda: l == r, ast.NotEq: lambda: l != r,
+               ast.In: lambda: l in r, ast.NotIn: lambda: l not in r}
+      if type(op) in table:
+        return table[type(op)]()
+    if isinstance(e, ast.Subscript):
+      return self.ev(e.value, env)[self.ev(e.slice, env)]
+    if isinstance(e, ast.Attribute) and isinstance(e.value, ast.Name) \
+        and e.value.id == self.param and e.attr in ("lastgroup", "lastindex"):
+      return getattr(env[self.param], e.attr)
+    if isinstance(e, ast.Call) and isinstance(e.func, ast.Attribute) \
+        and not e.keywords and not any(isinstance(a, ast.Starred) for a in e.args):
+      args = [self.ev(a, env) for a in e.args]
+      recv = e.func.value
+      if isinstance(recv, ast.Name) and recv.id == self.param:
+        if e.func.attr in ("group", "expand", "groups", "groupdict", "start", "end"):
+          return getattr(env[self.param], e.func.attr)(*args)
+      else:
+        base = self.ev(recv, env)
+        if isinstance(base, str) and e.func.attr in ("format", "join"):
+          return getattr(base, e.func.attr)(*args)
+    raise AnalysisError(
+        f"escape_ninja_path: replacement expression `{src(e)[:60]}` not interpreted")
+
+
+class _Return(Exception):
+  def __init__(self, value):
+    super().__init__()
+    self.value = value
+
+
+def _is_re(mod, name):
+  return mod.imports.get(name) == "re"
+
+
+def _compile_call(mod, expr):
+  """(pattern expr, flags expr|None) if expr is `re.compile(P[, flags])`."""
+  if isinstance(expr, ast.Call) and isinstance(expr.func, ast.Attribute) \
+      and expr.func.attr == "compile" and isinstance(expr.func.value, ast.Name) \
+      and _is_re(mod, expr.func.value.id):
+    if any(isinstance(a, ast.Starred) for a in expr.args) or \
+        any(k.arg is None for k in expr.keywords):
+      raise AnalysisError("escape_ninja_path: re.compile(*args)")
+    bound = dict(zip(["pattern", "flags"], expr.args))
+    for k in expr.keywords:
+      bound[k.arg] = k.value
+    if "pattern" not in bound:
+      raise AnalysisError("escape_ninja_path: re.compile without a pattern")
+    return bound["pattern"], bound.get("flags")
+  return None
+
+
+def _substitution(mod, fn, rd, call):
+  """{'pattern','flags','repl','string','count'} (expr nodes) of a sub call:
+  `re.sub(P, R, S, ..)`, `re.compile(P).sub(R, S, ..)` or `X.sub(R, S, ..)`
+  with X bound once (module level or locally) to `re.compile(P)`."""
+  if not (isinstance(call, ast.Call) and isinstance(call.func, ast.Attribute)
+          and call.func.attr == "sub"):
+    raise AnalysisError("escape_ninja_path does not return a regex substitution "
+                        "(re.sub(...) / <compiled pattern>.sub(...))")
+  if any(isinstance(a, ast.Starred) for a in call.args) or \
+      any(k.arg is None for k in call.keywords):
+    raise AnalysisError("escape_ninja_path: sub(*args)")
+  recv = call.func.value
+  if isinstance(recv, ast.Name) and _is_re(mod, recv.id) and not rd.defs_of(recv):
+    names = ["pattern", "repl", "string", "count", "flags"]
+    bound = dict(zip(names, call.args))
+    for k in call.keywords:
+      bound[k.arg] = k.value
+    return bound
+  comp = _compile_call(mod, recv)
+  how = "inline"
+  if comp is None and isinstance(recv, ast.Name):
+    ds = rd.defs_of(recv)
+    if ds:
+      d = _one(list(ds), f"binding of {recv.id}")
+      if d.kind != "assign" or d.path:
+        raise AnalysisError(f"escape_ninja_path: {recv.id} bound by {d.describe()}")
+      comp, how = _compile_call(mod, d.value), "local"
+    elif recv.id in mod.assigns:
+      # module-level constant: bound exactly once in the module
+      stores = [n for n in ast.walk(mod.tree) if isinstance(n, ast.Name)
+                and n.id == recv.id and isinstance(n.ctx, ast.Store)]
+      if len(stores) != 1:
+        raise AnalysisError(f"escape_ninja_path: {recv.id} is bound {len(stores)} times")
+      comp, how = _compile_call(mod, mod.assigns[recv.id]), "module constant"
+  if comp is None:
+    raise AnalysisError(
+        f"escape_ninja_path: `{src(recv)}` is not re / re.compile(...) / a name "
+        "bound to re.compile(...)")
+  bound = dict(zip(["repl", "string", "count"], call.args))
+  for k in call.keywords:
+    bound[k.arg] = k.value
+  bound["pattern"] = comp[0]
+  if comp[1] is not None:
+    bound["flags"] = comp[1]
+  bound["via"] = how
+  return bound
+
+
+def _replacement(mod, fn, rd, expr, cre):
+  """(callable match -> str|_Raises, description) for the repl argument."""
+  const = try_fold(expr, mod=mod)
+  if isinstance(const, str):
+    try:
+      _sre_parser.parse_template(const, cre)
+    except (re.error, IndexError) as e:
+      raise AnalysisError(
+          f"escape_ninja_path: replacement does not parse: {e}") from e
+    return (lambda m: m.expand(const)), f"template {const!r}"
+  node = expr
+  if isinstance(node, ast.Name):
+    ds = rd.defs_of(node)
+    if ds:
+      d = _one(list(ds), f"binding of {node.id}")
+      if d.kind == "assign" and not d.path:
+        node = d.value
+      elif isinstance(d.node, (ast.FunctionDef,)):
+        node = d.node
+      else:
+        raise AnalysisError(f"escape_ninja_path: replacement bound by {d.describe()}")
+    elif node.id in mod.functions:
+      node = mod.functions[node.id]
+    elif node.id in mod.assigns:
+      node = mod.assigns[node.id]
+  if isinstance(node, (ast.Lambda, ast.FunctionDef)):
+    return _Interp(node), f"function `{src(node)[:80]}`"
+  raise AnalysisError(
+      f"escape_ninja_path: replacement `{src(expr)[:60]}` is neither a constant "
+      "template nor a function defined in this module")
+
+
+def _decide_escape(pat, repl_fn):
+  """Witnesses against the three window conditions + whether they are a proof.
+
+  Returns (witness dict per condition, proof: bool, facts)."""
   try:
-    p = _sre_parser.parse(pattern)
+    parsed = _sre_parser.parse(pat)
+    cre = re.compile(pat)
   except re.error as e:
     raise AnalysisError(f"escape_ninja_path: pattern does not parse: {e}") from e
-  items = list(p)
-  group = 0
-  if len(items) == 1 and str(items[0][0]) == "SUBPATTERN":
-    group, add, sub_flags, sub = items[0][1]
-    items = list(sub)
-    group = group or 0
-  if len(items) != 1:
+  preds, foreign = _regex_items(parsed)
+  if parsed.state.flags & ~re.UNICODE.value:
+    foreign.add("inline flags")
+  lo, hi = parsed.getwidth()
+  lo, hi = int(lo), int(hi)
+  in_fragment = not foreign and lo >= 1 and hi <= _MAX_WIDTH
+  # outside the fragment only concrete counterexamples count: look at whole
+  # short paths (a little longer than one match, for the context operators)
+  width = hi if in_fragment else min(max(min(hi, _MAX_WIDTH), 1) + 2, _MAX_WIDTH)
+  # alphabet: the escapable characters + one representative per class of
+  # characters that no item of the pattern distinguishes
+  cells = {}
+  for u in _UNIVERSE:
+    if u in NINJA_ESCAPABLE:
+      continue
+    sig = tuple(q(u) for q in preds)
+    best = cells.get(sig)
+    if best is None or (not best.isalnum() and u.isalnum()):
+      cells[sig] = u
+  if len(cells) > 8:
     raise AnalysisError(
-        f"escape_ninja_path: pattern {pattern!r} is not a single character class")
-  op, av = items[0]
-  name = str(op)
-  universe = [chr(i) for i in range(0x300)]
-  if name == "LITERAL":
-    return {chr(av)}, group
-  if name == "ANY":
-    return set(universe) - {"\n"}, group
-  if name != "IN":
-    raise AnalysisError(f"escape_ninja_path: pattern item {name} not understood")
-  chars, negate, opaque = set(), False, False
-  for iop, iav in av:
-    iname = str(iop)
-    if iname == "LITERAL":
-      chars.add(chr(iav))
-    elif iname == "RANGE":
-      chars.update(chr(c) for c in range(iav[0], min(iav[1], 0x2FF) + 1))
-    elif iname == "NEGATE":
-      negate = True
-    else:
-      opaque = True
-  if opaque:
-    # categories (\s, \w ..): evaluate the class itself with the reference engine
-    cre = re.compile(pattern)
-    return {c for c in universe if cre.fullmatch(c)}, group
-  if negate:
-    chars = set(universe) - chars
-  return chars, group
+        f"escape_ninja_path: the pattern distinguishes {len(cells)} classes of "
+        "ordinary characters")
+  alphabet = sorted(NINJA_ESCAPABLE, key=lambda c: (c == "\n", c)) + \
+      sorted(cells.values())
+  if sum(len(alphabet) ** k for k in range(1, width + 1)) > 60000:
+    raise AnalysisError("escape_ninja_path: window space too large")
+  wit = {"covers": None, "only": None, "prefix": None}
+
+  def whole(w):
+    out = cre.sub(lambda m: _as_text(repl_fn(m)), w)
+    return out
+
+  def _as_text(v):
+    if isinstance(v, str):
+      return v
+    raise _Stop(v)
+
+  import itertools
+  n_windows = 0
+  for k in range(1, width + 1):
+    for tup in itertools.product(alphabet, repeat=k):
+      w = "".join(tup)
+      n_windows += 1
+      if in_fragment:
+        m = cre.match(w)
+        if m is None:
+          if w[0] in NINJA_ESCAPABLE and wit["covers"] is None:
+            wit["covers"] = (w, w[0], "copied unchanged")
+          continue
+        x = m.group(0)
+        out = repl_fn(m)
+        if not set(x) & NINJA_ESCAPABLE:
+          if out != x and wit["only"] is None:
+            wit["only"] = (w, x, repr(out))
+        elif out != _canonical_escape(x) and wit["prefix"] is None:
+          wit["prefix"] = (w, x, repr(out))
+      else:
+        try:
+          out = whole(w)
+        except _Stop as s:
+          out = s.value
+        want = _canonical_escape(w)
+        if out != want:
+          # classify the concrete failure
+          key = "prefix"
+          if isinstance(out, str):
+            if any(c in NINJA_ESCAPABLE for c in w) and out == w:
+              key = "covers"
+            elif not set(w) & NINJA_ESCAPABLE:
+              key = "only"
+          if wit[key] is None:
+            wit[key] = (w, w, repr(out))
+  facts = {"pattern": pat, "width": [lo, hi], "alphabet": alphabet,
+           "windows": n_windows, "outside_fragment": sorted(foreign)}
+  return wit, in_fragment, facts, cre
+
+
+class _Stop(Exception):
+  def __init__(self, value):
+    super().__init__()
+    self.value = value
 
 
 @rule("R19.4", "C19", floor=8)
@@ -1182,54 +1551,70 @@ def r19_4(ctx):
   rets = [n for n in walk_no_nested(fn) if isinstance(n, ast.Return)]
   r = _one(rets, "return in escape_ninja_path")
   call = r.value
-  if not (isinstance(call, ast.Call) and dotted(call.func) == "re.sub"):
-    raise AnalysisError("escape_ninja_path does not return re.sub(...)")
-  if any(isinstance(a, ast.Starred) for a in call.args):
-    raise AnalysisError("escape_ninja_path: re.sub(*args)")
-  names = ["pattern", "repl", "string", "count", "flags"]
-  bound = dict(zip(names, call.args))
-  for k in call.keywords:
-    bound[k.arg] = k.value
+  if isinstance(call, ast.Name):
+    d = rd.single_def(call, "returned value")
+    if d.kind != "assign" or d.path:
+      raise AnalysisError("escape_ninja_path: returned value is not a plain local")
+    call = d.value
+  bound = _substitution(mod, fn, rd, call)
   pat = try_fold(bound.get("pattern"), mod=mod) if "pattern" in bound else None
-  repl = try_fold(bound.get("repl"), mod=mod) if "repl" in bound else None
-  if not isinstance(pat, str) or not isinstance(repl, str):
-    raise AnalysisError("escape_ninja_path: pattern/replacement are not constants")
+  if not isinstance(pat, str):
+    raise AnalysisError("escape_ninja_path: the pattern is not a constant string")
   flags = try_fold(bound["flags"], mod=mod, default=_NOFOLD) if "flags" in bound else 0
   if flags != 0:
-    raise AnalysisError("escape_ninja_path: re.sub with flags")
-  chars, group = _single_char_class(pat)
-  shown = sorted(chars)[:12]
-  ctx.check(chars >= NINJA_ESCAPABLE, "escape_ninja_path:class-covers-specials",
-            RUN, call.lineno,
-            f"the pattern {pat!r} matches {shown} and misses "
-            f"{sorted(NINJA_ESCAPABLE - chars)}; newline, space, ':' and '$' end "
-            "or rewrite a path in a ninja build line",
-            {"pattern": pat, "class": shown})
-  ctx.check(chars <= NINJA_ESCAPABLE, "escape_ninja_path:class-only-escapable",
-            RUN, call.lineno,
-            f"the pattern {pat!r} also matches {sorted(chars - NINJA_ESCAPABLE)[:8]}"
-            ": '$' followed by such a character is a variable reference or a "
-            "lexer error in ninja, not that character",
-            {"pattern": pat, "extra": sorted(chars - NINJA_ESCAPABLE)[:8]})
+    raise AnalysisError("escape_ninja_path: substitution with flags")
+  if "repl" not in bound:
+    raise AnalysisError("escape_ninja_path: substitution without a replacement")
   try:
-    tmpl = _sre_parser.parse_template(repl, re.compile(pat))
-  except (re.error, IndexError) as e:
-    raise AnalysisError(f"escape_ninja_path: replacement does not parse: {e}") from e
-  ok = list(tmpl) in (["$", group, ""], ["$", 0, ""])
-  ctx.check(ok, "escape_ninja_path:replacement-prefixes-dollar", RUN, call.lineno,
-            f"the replacement {repl!r} parses to {list(tmpl)}; it must be '$' "
-            "followed by the matched character",
-            {"replacement": repl, "template": [str(x) for x in tmpl]})
+    cre0 = re.compile(pat)
+  except re.error as e:
+    raise AnalysisError(f"escape_ninja_path: pattern does not parse: {e}") from e
+  repl_fn, repl_desc = _replacement(mod, fn, rd, bound["repl"], cre0)
+  wit, proof, facts, cre = _decide_escape(pat, repl_fn)
+  facts["replacement"] = repl_desc
+  facts["pattern_from"] = bound.get("via", "re.sub argument")
+  if not proof and not any(wit.values()):
+    raise AnalysisError(
+        f"escape_ninja_path: pattern {pat!r} is outside the fragment decided "
+        f"here ({facts['outside_fragment'] or 'unbounded or empty matches'}) and "
+        "no counterexample was found among short paths")
+
+  def show(w):
+    if w is None:
+      return ""
+    path, text, out = w
+    return (f"in the path {path!r} the text {text!r} is rewritten to {out} "
+            f"(needed: {_canonical_escape(text)!r})")
+
+  w = wit["covers"]
+  ctx.check(w is None, "escape_ninja_path:class-covers-specials", RUN, call.lineno,
+            f"the pattern {pat!r} leaves an escapable character bare: "
+            f"{show(w) if w and w[2] != 'copied unchanged' else ''}"
+            + (f"in the path {w[0]!r} the character {w[1]!r} is not matched and is "
+               "copied unchanged" if w and w[2] == "copied unchanged" else "")
+            + "; newline, space, ':' and '$' end or rewrite a path in a ninja "
+            "build line", dict(facts, witness=list(w) if w else None))
+  w = wit["only"]
+  ctx.check(w is None, "escape_ninja_path:class-only-escapable", RUN, call.lineno,
+            f"ordinary text is rewritten: {show(w)}: '$' followed by such a "
+            "character is a variable reference or a lexer error in ninja, not "
+            "that character", dict(facts, witness=list(w) if w else None))
+  w = wit["prefix"]
+  ctx.check(w is None, "escape_ninja_path:replacement-prefixes-dollar", RUN,
+            call.lineno,
+            f"an escapable character does not come out as '$' + itself: {show(w)}; "
+            "every newline, space, ':' and '$' of the path must be preceded by "
+            "its own '$', whatever surrounds it (ninja reads `$ ` as a space "
+            "and `$$` as one dollar)", dict(facts, witness=list(w) if w else None))
   s_arg = bound.get("string")
   whole = isinstance(s_arg, ast.Name) and len(rd.positional) == 1 \
-      and rd.defs_of(s_arg) == {rd.params[rd.positional[0]]} \
-      and try_fold(bound["count"], mod=mod, default=1) == 0 if "count" in bound \
-      else isinstance(s_arg, ast.Name) and len(rd.positional) == 1 \
       and rd.defs_of(s_arg) == {rd.params[rd.positional[0]]}
+  if "count" in bound:
+    whole = whole and try_fold(bound["count"], mod=mod, default=1) == 0
   ctx.check(whole, "escape_ninja_path:all-occurrences-of-the-argument", RUN,
             call.lineno,
-            "re.sub must rewrite every occurrence in the path argument itself "
-            f"(string={src(s_arg) if s_arg is not None else None}, "
+            "the substitution must rewrite every occurrence in the path argument "
+            f"itself (string={src(s_arg) if s_arg is not None else None}, "
             f"count={src(bound['count']) if 'count' in bound else 'absent'})",
             {"string": src(s_arg) if s_arg is not None else None})
 
@@ -1562,6 +1947,10 @@ _PLAN_RENAMED = """      step_map = get_imports_map(deps, module_to_imports_map,
 """
 
 
+_ESC_RET = "  return re.sub(r'(?P<char>[\\n :$])', r'$\\g<char>', path)\n"
+_ESC_DEF = "def escape_ninja_path(path: str):\n"
+
+
 def _v(name, rid, old, new, expect="fire", file=RUN):
   return {"name": name, "rule": rid, "file": file, "old": old, "new": new,
           "expect": expect}
@@ -1700,6 +2089,42 @@ VARIANTS = [
     _v("replacement-uses-backslash", "R19.4", "r'$\\g<char>'", "r'\\\\\\g<char>'"),
     _v("only-first-occurrence-escaped", "R19.4",
        "r'$\\g<char>', path)", "r'$\\g<char>', path, count=1)"),
+    {"name": "seeded-C19-m2", "rule": "R19.4", "patch": "seeded/C19-m2/patch.diff",
+     "expect": "fire"},
+    _v("escape-skips-char-after-dollar", "R19.4", _ESC_RET,
+       "  return re.sub(r'(?<!\\$)(?P<char>[\\n :$])', r'$\\g<char>', path)\n"),
+    _v("escape-run-gets-one-dollar", "R19.4", _ESC_RET,
+       "  return re.sub(r'[\\n :$]+', r'$\\g<0>', path)\n"),
+    {"name": "escape-function-keeps-existing-escapes", "rule": "R19.4",
+     "expect": "fire", "edits": [
+         (RUN, _ESC_DEF,
+          "_ESCAPABLE = re.compile(r'(\\$[ :$])|([\\n :$])')\n\n\n"
+          "def _escape_match(m):\n"
+          "  if m.group(1) is not None:\n"
+          "    return m.group(0)\n"
+          "  return '$' + m.group(2)\n\n\n" + _ESC_DEF),
+         (RUN, _ESC_RET, "  return _ESCAPABLE.sub(_escape_match, path)\n")]},
+    {"name": "precompiled-class-misses-colon", "rule": "R19.4", "expect": "fire",
+     "edits": [
+         (RUN, _ESC_DEF, "_ESCAPABLE = re.compile(r'[\\n $]')\n\n\n" + _ESC_DEF),
+         (RUN, _ESC_RET, "  return _ESCAPABLE.sub(lambda m: '$' + m.group(), path)\n")]},
+    {"name": "twin-precompiled-pattern", "rule": "R19.4", "expect": "silent",
+     "edits": [
+         (RUN, _ESC_DEF,
+          "_ESCAPABLE = re.compile(r'(?P<char>[\\n :$])')\n\n\n" + _ESC_DEF),
+         (RUN, _ESC_RET, "  return _ESCAPABLE.sub(r'$\\g<char>', path)\n")]},
+    _v("twin-function-replacement", "R19.4", _ESC_RET,
+       "  return re.sub(r'[\\n :$]', lambda m: '$' + m.group(0), path)\n", "silent"),
+    {"name": "twin-alternation-and-named-function", "rule": "R19.4", "expect": "silent",
+     "edits": [
+         (RUN, _ESC_DEF,
+          "_ESCAPABLE = re.compile(r'(?P<dollar>\\$)|(?P<other>[\\n :])')\n\n\n"
+          "def _escape_match(m):\n"
+          "  if m.group('dollar'):\n"
+          "    return '$$'\n"
+          "  return f\"${m.group('other')}\"\n\n\n" + _ESC_DEF),
+         (RUN, _ESC_RET,
+          "  escaped = _ESCAPABLE.sub(_escape_match, path)\n  return escaped\n")]},
     _v("twin-unnamed-group", "R19.4",
        "r'(?P<char>[\\n :$])', r'$\\g<char>', path)",
        "r'([:$ \\n])', r'$\\1', path)", "silent"),
